@@ -125,6 +125,8 @@ def run_tlc(module, cfg, name, constants=None, workers=8, timeout=1500, env_extr
         res['distinct'] = int(m.group(2))
     res['completed'] = 'Model checking completed. No error has been found.' in out
     res['invariant_violated'] = re.findall(r'Invariant (\w+) is violated', out)
+    if 'Temporal properties were violated' in out:
+        res['invariant_violated'].append('temporal-property')
     if r.returncode == 124:
         raise ToolError(f'TLC timed out after {timeout}s on {module}/{name}')
     if not res['completed'] and not res['invariant_violated']:
@@ -229,6 +231,8 @@ class Check:
         self.assumptions = []
         self.extra = {}
         self.rule = ''
+        self.nontrivial_rule = ('a case counts as non-trivial if the specification expects at least one output or an error from it and its program has at least three nodes '
+                                '(replay suites), or if it is a distinct terminated behaviour / recorded run / scenario of the state machine at hand')
         self.findings = [f for f in load_findings() if f.get('property') == pid and f.get('status', 'open') == 'open']
 
     def add_tlc(self, res):
@@ -257,7 +261,7 @@ class Check:
             'traces_validated_against_impl': self.traces,
             'evaluations': self.evaluations,
             'distinct_nontrivial': len(self.nontrivial) if isinstance(self.nontrivial, set) else int(self.nontrivial),
-            'rule': self.rule,
+            'rule': self.rule + ' Non-trivial: ' + self.nontrivial_rule + '.',
             'samples': self.samples or ['(no sample recorded)'],
         }
         cov.update(self.extra)
